@@ -121,11 +121,17 @@ def _capi_tok(t):
     t = re.sub(r'^(T \d+\.\.\d+) \S+ ', r'\1 ? ', t)
     t = re.sub(r'^(D .*) \S+$', r'\1 ?', t)
     return t
+def _capi_res(r):
+    """through C every failure is a return code of -1 plus a message whose wording is not part of the contract: errors of any
+    kind and calls on a poisoned rewriter are one class"""
+    if r is None or r == 'ok' or r == 'use-after-end': return r
+    if r.startswith('panic:construct') or r.startswith('new'): return r
+    return 'fail'
 def p_capi(case):
     out = []
     for c in case['calls']:
         chunks = [x[1:] for x in c['sink'] if x.startswith('c')]
-        out.append((norm_res(c['res']), ''.join(chunks), [x == '' for x in chunks][-1:] , list(zip(c.get('handlers', []), [_capi_tok(e) for e in c['events']]))))
+        out.append((_capi_res(norm_res(c['res'])), ''.join(chunks), [x == '' for x in chunks][-1:] , list(zip(c.get('handlers', []), [_capi_tok(e) for e in c['events']]))))
     return out
 PROJECTIONS['capi'] = p_capi
 
